@@ -410,7 +410,8 @@ def run_model_case(arg):
         out.append(("violation", dict(base, edit="Read", outcome="roundtrip_mismatch"), "Model.code of the freshly read model differs from the text", None))
         return out
     old = _records_of(m)
-    base = dict(base, **_features(old), multiple_dvs=len(m.dependent_variables) > 1, has_des=any(k == "DES" for k, _ in old))
+    base = dict(base, **_features(old), multiple_dvs=len(m.dependent_variables) > 1, has_des=any(k == "DES" for k, _ in old),
+                has_abbr_replace=any(k == "ABBREVIATED" and "REPLACE" in t.upper() for k, t in old))
     for edit in edits:
         rec = dict(base, edit=edit)
         try:
